@@ -34,6 +34,47 @@ def _arm_stats(arms, dec, rew):
     return out
 
 
+def _nn_reference(cfg, run, tr, te, arms, ctx):
+    from scipy.spatial.distance import cdist
+    npname, kw = cfg["np"]
+    metric = kw.get("metric", "euclidean")
+    X = np.asarray(run.ctxs, dtype=float)
+    stored = list(tr)
+    batch = run.batch or len(te)
+    out = []
+    for s in range(0, len(te), batch):
+        block = te[s:s + batch]
+        for i in block:
+            try:
+                D = cdist(X[stored], X[[i]], metric=metric)[:, 0]
+            except Exception:
+                out.append(None)
+                continue
+            if not np.all(np.isfinite(D)):
+                out.append(None)
+                continue
+            if npname == "Radius":
+                r = kw["radius"]
+                if np.any(np.abs(D - r) <= 1e-9 * max(1.0, abs(r))) and not float(r).is_integer():
+                    ctx.fired("probe.nn_reference_ambiguous_row_skipped")
+                    out.append(None)
+                    continue
+                members = [stored[j] for j in range(len(stored)) if D[j] <= r]
+            else:
+                k = kw["k"]
+                order = np.argsort(D, kind="stable")
+                if len(order) > k and abs(D[order[k - 1]] - D[order[k]]) <= 1e-9 * max(1.0, abs(D[order[k]])):
+                    ctx.fired("probe.nn_reference_ambiguous_row_skipped")
+                    out.append(None)
+                    continue
+                members = [stored[j] for j in order[:k]]
+            ctx.fired("probe.nn_reference_row")
+            out.append({a: (_stats([run.rew[j] for j in members if run.dec[j] == a]) or {}) for a in arms})
+        if run.batch:
+            stored += list(block)
+    return out
+
+
 def _evaluate(arms, dec, rew, preds, train_stats, stat, nn_stats, start):
     per = {a: [] for a in arms}
     used_nn = False
@@ -131,6 +172,20 @@ def execute(case, ctx):
         nn_stats = sim.bandit_to_arm_to_stats_neighborhoods[name] if (nn and not case["is_quick"]) else None
         if nn_stats is not None and len(nn_stats) != len(te):
             return bad("not-one-neighbourhood-statistic-per-test-row", {"bandit": name, "have": len(nn_stats)})
+        if nn_stats is not None and cfg["np"][0] in ("Radius", "KNearest"):
+            # the neighbourhood statistics recomputed independently: the neighbourhood of a test row as the public API
+            # defines it (distances of the rows stored at that time to this ONE row), then per-arm statistics of the raw
+            # rewards in it. Rows whose membership is numerically ambiguous are skipped and counted.
+            ref = _nn_reference(cfg, run, tr, te, arms, ctx)
+            for j, want in enumerate(ref):
+                if want is None:
+                    continue
+                ctx.fired("oracle.comparisons")
+                have = {a: dict(nn_stats[j].get(a) or {}) for a in arms}
+                d = diff(want, have, rtol, 1e-9)
+                if d:
+                    return bad("neighbourhood-statistics-wrong", {"bandit": name, "test_row": j, "diff": d},
+                               bandit_np=str(cfg["np"][0]))
         rep = {"min": sim.bandit_to_arm_to_stats_min[name], "mean": sim.bandit_to_arm_to_stats_avg[name],
                "max": sim.bandit_to_arm_to_stats_max[name]}
         blocks = [("total", 0, len(te))] if not online else \
